@@ -110,6 +110,21 @@ class _Bound(object):
         self.kind, self.target, self.name = kind, target, name
 
 
+class FNT(tuple):
+    """instance of a namedtuple-based class of the repo (possibly with methods)"""
+
+    ci = None
+    fields = ()
+
+
+class FObj(object):
+    """instance of a plain value class of the repo: attributes set by its __init__"""
+
+    def __init__(self, ci):
+        self.ci = ci
+        self.attrs = {}
+
+
 class _Super(object):
     def __init__(self, after: ClassInfo, cls: ClassInfo):
         self.after, self.cls = after, cls
@@ -179,7 +194,7 @@ class Folder(object):
             raise AnalysisError("%s.%s does not resolve to a function" % (ci.qualname, name))
         return self.call_func(raw, ci, [], {})
 
-    def call_func(self, fi: FuncInfo, cls: Optional[ClassInfo], args=(), kwargs=None):
+    def call_func(self, fi: FuncInfo, cls: Optional[ClassInfo], args=(), kwargs=None, instance=None):
         kwargs = dict(kwargs or {})
         self.depth += 1
         if self.depth > 12:
@@ -191,7 +206,9 @@ class Folder(object):
             if fi.kind == "classmethod":
                 pos = [cls] + pos
             elif fi.kind in ("method", "property"):
-                raise AnalysisError("%s: %s needs an instance: not a constant" % (fi.where(), fi.qualname))
+                if instance is None:
+                    raise AnalysisError("%s: %s needs an instance: not a constant" % (fi.where(), fi.qualname))
+                pos = [instance] + pos
             env = {}
             defaults = [None] * (len(params) - len(a.defaults)) + list(a.defaults)
             fr = _Frame(self, fi.module, env, fi.owner, cls)
@@ -375,6 +392,12 @@ class _Frame(object):
                 obj[lo:hi] = self.iterate(v, target)
             else:
                 self.unsupported(target, "subscript store")
+        elif isinstance(target, ast.Attribute):
+            obj = self.expr(target.value)
+            if isinstance(obj, FObj):
+                obj.attrs[target.attr] = v
+            else:
+                self.unsupported(target, "attribute store")
         else:
             self.unsupported(target, "assignment target")
 
@@ -551,6 +574,21 @@ class _Frame(object):
             if owner is None:
                 self.unsupported(e, "super attribute")
             return self.f._attr_value(owner, raw, base.cls)
+        if isinstance(base, (FNT, FObj)):
+            if isinstance(base, FNT) and a in base.fields:
+                return base[base.fields.index(a)]
+            if isinstance(base, FObj) and a in base.attrs:
+                return base.attrs[a]
+            owner, raw = self.f.p.class_attr_def(base.ci, a)
+            if isinstance(raw, FuncInfo):
+                if raw.kind == "property":
+                    return self.f.call_func(raw, base.ci, (), {}, instance=base)
+                if raw.kind == "method":
+                    return _Bound("method", (raw, base), a)
+                return _Bound("func", (raw, base.ci), a)
+            if owner is not None:
+                return self.f._attr_value(owner, raw, base.ci)
+            self.unsupported(e, "attribute of a value object")
         if isinstance(base, Enzyme):
             if a in ENZYME_ATTRS:
                 return getattr(base.obj, a)
@@ -576,6 +614,29 @@ class _Frame(object):
         if isinstance(base, _Bound) and base.kind == "builtin" and base.name == "str" and a in ("maketrans", "join", "format"):
             return _Bound("strstatic", None, a)
         self.unsupported(e, "attribute base %r" % (base,))
+
+    def instantiate(self, ci, args, kwargs, node):
+        """value classes of the repo used inside a structure(): namedtuple-based ones, and plain classes whose
+        __init__ only stores its arguments"""
+        p = self.f.p
+        for c in p.mro(ci):
+            if isinstance(c, ClassInfo):
+                fields = _nt_fields(self, c)
+                if fields is not None:
+                    vals = list(args) + [None] * (len(fields) - len(args))
+                    if len(args) > len(fields) or any(k not in fields for k in kwargs):
+                        self.unsupported(node, "namedtuple arguments")
+                    for k, v in kwargs.items():
+                        vals[fields.index(k)] = v
+                    o = FNT(vals)
+                    o.ci, o.fields = ci, tuple(fields)
+                    return o
+        owner, init = p.class_attr_def(ci, "__init__")
+        if isinstance(init, FuncInfo) and all(isinstance(b, ClassInfo) or getattr(b, "dotted", "") == "builtins.object" for b in p.mro(ci)):
+            o = FObj(ci)
+            self.f.call_func(init, ci, args, kwargs, instance=o)
+            return o
+        self.unsupported(node, "instantiation of %s" % ci.qualname)
 
     def e_BinOp(self, e):
         return self.binop(e.op, self.expr(e.left), self.expr(e.right), e)
@@ -716,8 +777,13 @@ class _Frame(object):
                 kwargs.update(self.expr(k.value))
             else:
                 kwargs[k.arg] = self.expr(k.value)
+        if isinstance(fn, ClassInfo):
+            return self.instantiate(fn, args, kwargs, e)
         if not isinstance(fn, _Bound):
             self.unsupported(e, "call")
+        if fn.kind == "method":
+            fi, obj = fn.target
+            return self.f.call_func(fi, obj.ci, args, kwargs, instance=obj)
         if fn.kind == "func":
             fi, cls = fn.target
             return self.f.call_func(fi, cls, args, kwargs)
@@ -810,6 +876,23 @@ class _Frame(object):
                     return r
             self.unsupported(e, "builtin call")
         self.unsupported(e, "call")
+
+
+def _nt_fields(frame, ci):
+    """field names when the class derives from a namedtuple, else None"""
+    node = ci.node
+    if node is None:
+        return None
+    for b in node.bases:
+        if isinstance(b, ast.Call) and ast.unparse(b.func) in ("collections.namedtuple", "namedtuple", "typing.NamedTuple", "NamedTuple") and len(b.args) >= 2:
+            spec = ast.literal_eval(b.args[1]) if not isinstance(b.args[1], ast.Name) else None
+            if isinstance(spec, str):
+                return spec.replace(",", " ").split()
+            if isinstance(spec, (list, tuple)):
+                return [x[0] if isinstance(x, (list, tuple)) else x for x in spec]
+        if ast.unparse(b) in ("typing.NamedTuple", "NamedTuple"):
+            return [st.target.id for st in node.body if isinstance(st, ast.AnnAssign) and isinstance(st.target, ast.Name)]
+    return None
 
 
 def _as_load(t):
